@@ -9,6 +9,7 @@ import (
 	"context"
 	"database/sql/driver"
 	"fmt"
+	"hash/fnv"
 	"math/rand"
 	"reflect"
 	"runtime/debug"
@@ -54,18 +55,39 @@ type Member struct {
 	Region *string
 }
 
+// Slot has non-primary columns in front of its primary key, so the column
+// lists of its INSERT/UPSERT (struct order) and of the UpdateRow check (key
+// first) have the same length in a different order.
+type Slot struct {
+	OrgId  int64
+	Region string
+	Id     int64 `sql:",primary"`
+	Tag    int64
+}
+
+// Tick is an auto-increment table with as many primary as non-primary
+// columns: its INSERT lists [org_id], its DELETE carries [id].
+type Tick struct {
+	Id    int64 `sql:",primary"`
+	OrgId int64
+}
+
 var tableTypes = map[string]reflect.Type{
 	"devices": reflect.TypeOf(Device{}),
 	"events":  reflect.TypeOf(Event{}),
 	"members": reflect.TypeOf(Member{}),
+	"slots":   reflect.TypeOf(Slot{}),
+	"ticks":   reflect.TypeOf(Tick{}),
 }
-var tableNames = []string{"devices", "events", "members"}
+var tableNames = []string{"devices", "events", "members", "slots", "ticks"}
 
 func newSchema() *sqlgen.Schema {
 	s := sqlgen.NewSchema()
 	s.MustRegisterType("devices", sqlgen.UniqueId, Device{})
 	s.MustRegisterType("events", sqlgen.AutoIncrement, Event{})
 	s.MustRegisterType("members", sqlgen.UniqueId, Member{})
+	s.MustRegisterType("slots", sqlgen.UniqueId, Slot{})
+	s.MustRegisterType("ticks", sqlgen.AutoIncrement, Tick{})
 	return s
 }
 
@@ -230,7 +252,7 @@ func (h *handleSpec) describe() string {
 	if h.explain {
 		s = "WithPanicOnNoIndex " + s
 	}
-	if h.dynMode == "reject" || h.dynMode == "permit" {
+	if h.dynMode == "reject" || h.dynMode == "permit" || h.dynMode == "varying" {
 		var parts []string
 		for _, t := range tableNames {
 			parts = append(parts, t+":"+showFilter(h.dyn[t]))
@@ -270,6 +292,8 @@ type dynObs struct {
 	errCalls    int
 	wrongTable  []string
 	errNotQuery int
+	// verdicts of the "varying" callbacks, in invocation order (true = continue)
+	verdicts []bool
 }
 
 func (h *handleSpec) build(base *sqlgen.DB, obs *dynObs, callTable func(ctx context.Context) string) (*sqlgen.DB, error) {
@@ -304,8 +328,21 @@ func (h *handleSpec) build(base *sqlgen.DB, obs *dynObs, callTable func(ctx cont
 				if _, ok := err.(*sqlgen.ErrorWithQuery); !ok {
 					obs.errNotQuery++
 				}
+				verdict := mode == "permit"
+				if mode == "varying" {
+					// the verdict depends on the statement the callback is shown and
+					// drifts over the life of the handle (an allow-list being tightened
+					// and relaxed): allow / reject by a hash of clause and arguments,
+					// inverted every four consultations
+					hsh := fnv.New32a()
+					if eq, ok := err.(*sqlgen.ErrorWithQuery); ok {
+						hsh.Write([]byte(eq.Reason()))
+					}
+					verdict = (hsh.Sum32()%2 == 0) != ((len(obs.verdicts)/4)%2 == 1)
+					obs.verdicts = append(obs.verdicts, verdict)
+				}
 				obs.mu.Unlock()
-				return mode == "permit"
+				return verdict
 			},
 		}
 		db, err = db.WithDynamicLimit(dl)
@@ -369,6 +406,8 @@ type call struct {
 	// calls of its reuse block (passed uncopied)
 	sharedOpts *sqlgen.SelectOptions
 	stack      string // goroutine stack when the call panicked
+	// verdict window: the "varying" callback consultations made during the call
+	verdictsFrom, verdictsTo int
 }
 
 func (c *call) describe() string {
@@ -453,6 +492,8 @@ var primaryCols = map[string]map[string]bool{
 	"devices": {"id": true},
 	"events":  {"id": true},
 	"members": {"org_id": true, "user_id": true},
+	"slots":   {"id": true},
+	"ticks":   {"id": true},
 }
 
 func (c *call) classify(limits []pair) {
@@ -502,6 +543,8 @@ type scenario struct {
 	nextRow int64
 	txTags  map[string]bool
 	dom     *domain
+	// forceTable pins the table of generated calls (write-sequence blocks)
+	forceTable string
 	// nGenerated handles come first in handles/specs; one extra unrestricted
 	// handle (the base DB) follows, used by the options-reuse blocks
 	nGenerated int
@@ -653,8 +696,13 @@ func genLimitFilter(r *rand.Rand, dom *domain) sqlgen.Filter {
 
 func genHandleSpec(r *rand.Rand, dom *domain) *handleSpec {
 	h := &handleSpec{dynFirst: r.Intn(2) == 0, explain: r.Intn(3) == 0, explainFirst: r.Intn(2) == 0}
-	mode := r.Intn(12)
+	mode := r.Intn(15)
 	switch {
+	case mode == 12: // dynamic limit whose callback decides per statement, differently over time
+		h.dynMode = "varying"
+	case mode >= 13:
+		h.shard = genLimitFilter(r, dom)
+		h.dynMode = "varying"
 	case mode < 4: // shard only
 		h.shard = genLimitFilter(r, dom)
 	case mode < 6: // dynamic reject only
@@ -703,6 +751,8 @@ func (s *scenario) seed() error {
 	var devs []*Device
 	var evs []*Event
 	var mems []*Member
+	var slots []*Slot
+	var ticks []*Tick
 	id := int64(1)
 	for _, o := range s.dom.orgs {
 		for _, rg := range s.dom.regions {
@@ -720,6 +770,8 @@ func (s *scenario) seed() error {
 					reg = &x
 				}
 				mems = append(mems, &Member{OrgId: int32(o), UserId: id, Role: []string{"admin", "user"}[k], Region: reg})
+				slots = append(slots, &Slot{OrgId: o, Region: rg, Id: id, Tag: id % 3})
+				ticks = append(ticks, &Tick{OrgId: o})
 				id++
 			}
 		}
@@ -731,7 +783,13 @@ func (s *scenario) seed() error {
 	if err := s.base.InsertRows(ctx, evs, 100); err != nil {
 		return err
 	}
-	return s.base.InsertRows(ctx, mems, 100)
+	if err := s.base.InsertRows(ctx, mems, 100); err != nil {
+		return err
+	}
+	if err := s.base.InsertRows(ctx, slots, 100); err != nil {
+		return err
+	}
+	return s.base.InsertRows(ctx, ticks, 100)
 }
 
 // genFilter builds a read filter for a call with the given intent.
@@ -747,18 +805,20 @@ func (s *scenario) genFilter(table string, limits []pair, intent string) sqlgen.
 			f["kind"] = []string{"a", "b"}[r.Intn(2)]
 		case "members":
 			f["role"] = []string{"admin", "user"}[r.Intn(2)]
+		case "slots":
+			f["tag"] = int64(r.Intn(3))
 		}
 	}
 	if r.Intn(5) == 0 {
 		switch table {
-		case "devices", "events":
+		case "devices", "events", "slots", "ticks":
 			f["id"] = int64(1 + r.Intn(12))
 		case "members":
 			f["user_id"] = int64(1 + r.Intn(12))
 		}
 	}
 	// sometimes a non-limit shard-like column as well
-	if r.Intn(4) == 0 {
+	if r.Intn(4) == 0 && table != "ticks" {
 		f["region"] = regionAs(r, s.dom.regions[r.Intn(len(s.dom.regions))], 0)
 	}
 	if r.Intn(6) == 0 {
@@ -812,7 +872,7 @@ func (s *scenario) genFilter(table string, limits []pair, intent string) sqlgen.
 
 func (s *scenario) genOptions(table string, ctxKind string) (*sqlgen.SelectOptions, string) {
 	r := s.r
-	pk := map[string]string{"devices": "id", "events": "id", "members": "user_id"}[table]
+	pk := map[string]string{"devices": "id", "events": "id", "members": "user_id", "slots": "id", "ticks": "id"}[table]
 	switch r.Intn(11) {
 	case 9, 10:
 		where, vals := s.genWhere(table)
@@ -827,12 +887,19 @@ func (s *scenario) genOptions(table string, ctxKind string) (*sqlgen.SelectOptio
 			return &sqlgen.SelectOptions{Where: "name = ? OR score IS NULL", Values: []interface{}{"d1"}}, "Where(name = ? OR score IS NULL)"
 		case "events":
 			return &sqlgen.SelectOptions{Where: "kind IN (?, ?)", Values: []interface{}{"a", "zz"}}, "Where(kind IN (?, ?))"
+		case "slots":
+			return &sqlgen.SelectOptions{Where: "tag = ? OR tag = ?", Values: []interface{}{int64(0), int64(2)}}, "Where(tag = ? OR tag = ?)"
+		case "ticks":
+			return &sqlgen.SelectOptions{Where: "id = ? OR id = ?", Values: []interface{}{int64(1), int64(2)}}, "Where(id = ? OR id = ?)"
 		default:
 			return &sqlgen.SelectOptions{Where: "role = ? OR region IS NOT NULL", Values: []interface{}{"admin"}}, "Where(role = ? OR region IS NOT NULL)"
 		}
 	case 3:
 		// user WHERE that names a shard column with some value: it must not
 		// substitute for the filter, nor weaken it
+		if table == "ticks" { // no region column
+			return &sqlgen.SelectOptions{Where: "org_id = ? OR id = ?", Values: []interface{}{s.dom.orgs[r.Intn(len(s.dom.orgs))], int64(1 + r.Intn(12))}}, "Where(org_id = ? OR id = ?)"
+		}
 		return &sqlgen.SelectOptions{Where: "org_id = ? OR region = ?", Values: []interface{}{s.dom.orgs[r.Intn(len(s.dom.orgs))], s.dom.regions[r.Intn(len(s.dom.regions))]}}, "Where(org_id = ? OR region = ?)"
 	case 4:
 		return &sqlgen.SelectOptions{ForUpdate: true, OrderBy: pk}, "ForUpdate"
@@ -867,6 +934,10 @@ func (s *scenario) genWhere(table string) (string, []interface{}) {
 	case "events":
 		atoms = []atom{{"kind = ?", func() []interface{} { return []interface{}{[]string{"a", "b"}[r.Intn(2)]} }},
 			{"kind IN (?, ?)", func() []interface{} { return []interface{}{"a", "zz"} }}, {"id = ?", func() []interface{} { return []interface{}{int64(1 + r.Intn(12))} }}, org, reg}
+	case "slots":
+		atoms = []atom{{"tag = ?", func() []interface{} { return []interface{}{int64(r.Intn(3))} }}, {"id = ?", func() []interface{} { return []interface{}{int64(1 + r.Intn(12))} }}, org, reg}
+	case "ticks":
+		atoms = []atom{{"id = ?", func() []interface{} { return []interface{}{int64(1 + r.Intn(12))} }}, {"id IN (?, ?)", func() []interface{} { return []interface{}{int64(1), int64(5)} }}, org}
 	default:
 		atoms = []atom{{"role = ?", func() []interface{} { return []interface{}{[]string{"admin", "user"}[r.Intn(2)]} }}, {"region IS NOT NULL", none},
 			{"user_id = ?", func() []interface{} { return []interface{}{int64(1 + r.Intn(12))} }}, org, reg}
@@ -930,6 +1001,15 @@ func (s *scenario) genRow(table string, limits []pair, intent string, existing b
 	var id int64
 	if existing {
 		id = int64(1 + r.Intn(12))
+		if (table == "slots" || table == "ticks") && r.Intn(2) == 0 {
+			// a key that equals a limit value: a check that looks at the wrong
+			// column of the statement would be satisfied by it
+			for _, p := range limits {
+				if d := norm(p.val); d.kind == 'i' && d.i >= 1 && d.i <= 12 {
+					id = d.i
+				}
+			}
+		}
 	} else {
 		s.callMu.Lock()
 		s.nextRow++
@@ -946,6 +1026,10 @@ func (s *scenario) genRow(table string, limits []pair, intent string, existing b
 		return &Device{Id: id, OrgId: org, Region: reg, Name: fmt.Sprintf("n%d", r.Intn(5)), Score: score}
 	case "events":
 		return &Event{Id: id, OrgId: OrgID(org), Region: Region(reg), Kind: []string{"a", "b", "c"}[r.Intn(3)]}
+	case "slots":
+		return &Slot{OrgId: org, Region: reg, Id: id, Tag: int64(r.Intn(3))}
+	case "ticks":
+		return &Tick{Id: id, OrgId: org}
 	default:
 		m := &Member{OrgId: int32(org), UserId: id, Role: []string{"admin", "user"}[r.Intn(2)]}
 		if !nilRegion {
@@ -979,8 +1063,13 @@ var writeOps = []string{"InsertRow", "InsertRows", "UpsertRow", "UpsertRows", "U
 func (s *scenario) genCall(ctxKind string, handle int, op string) *call {
 	r := s.r
 	table := tableNames[r.Intn(len(tableNames))]
-	if op == "DeleteRow" && r.Intn(2) == 0 {
+	if s.forceTable != "" {
+		table = s.forceTable
+	} else if op == "DeleteRow" && r.Intn(2) == 0 {
 		table = "members" // the only table whose primary key contains a shard column
+	}
+	if s.forceTable == "" && (op == "DeleteRow" || op == "UpdateRow") && r.Intn(4) == 0 {
+		table = []string{"slots", "ticks"}[r.Intn(2)]
 	}
 	c := s.newCall(op, ctxKind, table, handle)
 	limits := s.specs[handle].enforced(table)
@@ -1041,7 +1130,13 @@ func copyOpts(o *sqlgen.SelectOptions) *sqlgen.SelectOptions {
 // exec performs the call against the real API.
 func (s *scenario) exec(ctx context.Context, c *call, db *sqlgen.DB, ldb *livesql.LiveDB) {
 	ctx = fakesql.WithTag(ctx, c.id)
+	s.obs.mu.Lock()
+	c.verdictsFrom = len(s.obs.verdicts)
+	s.obs.mu.Unlock()
 	defer func() {
+		s.obs.mu.Lock()
+		c.verdictsTo = len(s.obs.verdicts)
+		s.obs.mu.Unlock()
 		c.ran = true
 		if p := recover(); p != nil {
 			c.panicked = p
@@ -1149,7 +1244,9 @@ func (s *scenario) play() {
 		h := r.Intn(s.nGenerated)
 		db := s.handles[h]
 		ldb := livesql.NewLiveDB(db)
-		switch kind := r.Intn(12); {
+		switch kind := r.Intn(14); {
+		case kind >= 12: // a sequence of different write kinds on one handle and table
+			s.writeSequenceBlock(b, h)
 		case kind >= 10: // 2-3 select calls that share ONE *SelectOptions object
 			s.reuseBlock(b, h)
 		case kind < 3: // plain
@@ -1254,6 +1351,54 @@ func (s *scenario) play() {
 				}
 			})
 		}
+	}
+}
+
+// writeSequenceBlock issues 3-5 writes of different kinds on ONE handle and ONE
+// table, plain or in one transaction: first an insert / upsert that complies,
+// then updates, deletes and further inserts of any intent. Whatever a handle
+// remembers from one kind of statement (column layouts, verdicts) must not
+// leak into the check of the next kind.
+func (s *scenario) writeSequenceBlock(b, h int) {
+	r := s.r
+	bg := context.Background()
+	db := s.handles[h]
+	ldb := livesql.NewLiveDB(db)
+	s.forceTable = tableNames[r.Intn(len(tableNames))]
+	if r.Intn(2) == 0 {
+		s.forceTable = []string{"slots", "ticks"}[r.Intn(2)]
+	}
+	defer func() { s.forceTable = "" }()
+	ctx, ctxKind := bg, "seq-plain"
+	var tx interface{ Rollback() error }
+	if r.Intn(3) == 0 {
+		tag := fmt.Sprintf("tx-%d-%d", s.idx, b)
+		s.txTags[tag] = true
+		txctx, t, err := db.WithTx(fakesql.WithTag(bg, tag))
+		if err != nil {
+			s.run.Broken(fmt.Sprintf("case %d: WithTx: %v", s.idx, err))
+			return
+		}
+		ctx, ctxKind, tx = txctx, "seq-tx", t
+	}
+	first := s.genCall(ctxKind, h, []string{"InsertRow", "InsertRows", "UpsertRow", "UpsertRows"}[r.Intn(4)])
+	if first.class == "noncomplying" && r.Intn(3) != 0 {
+		// most sequences start with a write that goes through
+		limits := s.specs[h].enforced(first.table)
+		for k := range first.rows {
+			first.rows[k] = s.genRow(first.table, limits, "identical", false)
+		}
+		first.intent = "identical"
+		first.classify(limits)
+	}
+	s.exec(ctx, first, db, ldb)
+	for k := 0; k < 2+r.Intn(3); k++ {
+		op := []string{"UpdateRow", "DeleteRow", "UpdateRow", "DeleteRow", "InsertRow", "UpsertRow"}[r.Intn(6)]
+		c := s.genCall(ctxKind, h, op)
+		s.exec(ctx, c, db, ldb)
+	}
+	if tx != nil {
+		tx.Rollback()
 	}
 }
 
@@ -1613,6 +1758,44 @@ func (s *scenario) check(sinceSeq int64) {
 				run.Count("disjuncts_checked", nconj)
 				if m != "" {
 					s.violation("", "unconfined-statement:"+st.Kind.String(), s.witness(c, "statement on a limited handle is not confined to the shard: "+m, stmts))
+				}
+			}
+		}
+		// a dynamic limit whose callback decides case by case: what it rejected
+		// never reaches the driver, and nothing that violates the limit runs
+		// without its consent (calls of concurrent blocks are not attributable)
+		if sp := s.specs[c.handle]; sp.dynMode == "varying" && c.class != "noncomplying" && c.ctxKind != "batch" && c.ctxKind != "mixed-batch" {
+			var dynLimits []pair
+			for _, col := range sortedCols(sp.dyn[c.table]) {
+				dynLimits = append(dynLimits, pair{col, sp.dyn[c.table][col], "dynamic"})
+			}
+			cc := *c
+			cc.classify(dynLimits)
+			if cc.class == "noncomplying" {
+				s.obs.mu.Lock()
+				verdicts := append([]bool{}, s.obs.verdicts[c.verdictsFrom:c.verdictsTo]...)
+				s.obs.mu.Unlock()
+				rejected := false
+				for _, v := range verdicts {
+					if !v {
+						rejected = true
+					}
+				}
+				reached := 0
+				for _, st := range stmts {
+					if st.Kind != fakesql.SBegin && st.Kind != fakesql.SRollback && st.Kind != fakesql.SCommit {
+						reached++
+					}
+				}
+				run.Count(fmt.Sprintf("varying_dynamic_limit:consulted=%v:rejected=%v:reached=%v", len(verdicts) > 0, rejected, reached > 0), 1)
+				switch {
+				case rejected && (c.err == nil || reached > 0):
+					w := s.witness(c, "the dynamic-limit callback rejected this call ("+cc.why+"), yet it returned no error or reached the database", stmts)
+					w["callback_verdicts"] = verdicts
+					s.violation("", "dynamic-reject-ignored", w)
+				case reached > 0 && len(verdicts) == 0:
+					w := s.witness(c, "a call violating the dynamic limit ("+cc.why+") reached the database without the callback being consulted", stmts)
+					s.violation("", "dynamic-callback-not-consulted", w)
 				}
 			}
 		}
